@@ -665,6 +665,27 @@ def run(facts, tier):
         t11.missing_anchor(f"reader bodies ({nread} found)")
     rules.append(t11.finish())
 
+    # ---------------- T14.13 nested printing options derive from the caller's
+    t13 = Rule("T14.13", "a writer that was handed printing options (`write::Pp`) builds the options for nested parts (keys, compact sub-values) by struct update from the options it was handed "
+               "(`Pp { indent: None, ..pp.clone() }`), never from `Default::default()`: otherwise caller-chosen fields (separator blank, key order, styles) are silently reset inside", floor=4)
+    takes_pp = set()
+    for crate_ in ("jaq_json", "jaq_fmts"):
+        for mb in facts.mir(crate_):
+            if any("write::Pp" in l_["ty"] for l_ in mb["locals"][1:1 + mb.get("argc", 0)]):
+                takes_pp.add(mb["def"])
+    for crate_ in ("jaq_json", "jaq_fmts"):
+        for f_ in facts.hir(crate_):
+            if f_["def"] not in takes_pp or f_.get("test"):
+                continue
+            for st in find(f_["body"], lambda n: n.get("k") == "Struct" and re.match(r"^jaq_json::write::Pp(<|$)", n.get("ty") or "")):
+                base = strip(st["base"]) if st.get("base") else None
+                from_default = base is not None and any(re.search(r"Default::default$|Default>::default$", c_) for c_ in callees(base)) and not any("Clone" in c_ for c_ in callees(base))
+                complete = base is None   # all fields written out: decided field by field by the compiler
+                t13.examined(("pp", f_["def"], st["sp"]), True, {"fn": f_["def"], "derived_from_received_options": not from_default and not complete, "all_fields_explicit": complete})
+                if from_default:
+                    t13.violate(f"pp-default/{f_['def']}", f"`{f_['def']}` builds nested printing options from `Default::default()` instead of the options it was handed: fields it does not repeat (e.g. the blank after `:`) are reset for the nested part", where=st["sp"])
+    rules.append(t13.finish())
+
     # ---------------- T14.12 parked I/O errors are polled on every return (shared with C17 E17.10)
     rules.append(rule_stream_error_polled(facts, "T14.12").finish())
 
